@@ -166,6 +166,42 @@ unsigned int g_freed; unsigned g_free_calls;
                 note='Sandbox_Status::CREATED == 2 (enumerator value taken from the instantiated AST by the emitter; the spec constant is checked by instance c14 under C14)')
 
 
+def free_overload_inst(kind, tier):
+    """the other public overloads of free_in_sandbox (opaque pointer, reference to a pointer cell): same guard and same argument
+    as the tainted overload - they must not reach the backend allocator on their own"""
+    spec = PRE_GHOST + ' unsigned int g_freed; unsigned g_free_calls;\n'
+
+    def is_free(fn, rec):
+        return fn.get('name') == 'impl_free_in_sandbox'
+    free_leaf = ('vsbx.impl_free_in_sandbox(stub)', is_free,
+                 '__CPROVER_ensures(g_freed == $0 && g_free_calls == __CPROVER_old(g_free_calls) + 1)\n__CPROVER_assigns(g_freed, g_free_calls)')
+    if kind == 'opaque':
+        TO = cs('rlbox::tainted_opaque<int *, rlbox::vsbx>')
+        P = '(uintptr_t)$0.data'
+        params, decl, arg = 'rlbox_sandbox<vsbx>& s, tainted_opaque<int*, vsbx> p', '  struct %s p; uintptr_t in_p; p.data = (int *)in_p;\n' % TO, 'p'
+        leaves = ['dynamic_check', S_CTX_LEAF, free_leaf]
+        pre_def = ''
+        pick = lambda tu, fn: find_func(tu, 'free_in_sandbox', 'rlbox::rlbox_sandbox<rlbox::vsbx>', lambda f, rn: 'tainted_opaque' in f['type']['qualType'])
+        inv = '(%s == 0 || V_IN($this->base0.slot, %s))' % (P, P)
+        expect = '(%s == 0 ? MI(0) : MI(%s) - MI(V_BASE[$this->base0.slot]))' % (P, P)
+    else:
+        TV = cs('rlbox::tainted_volatile<int *, rlbox::vsbx>')
+        params, decl, arg = 'rlbox_sandbox<vsbx>& s, tainted_volatile<int*, vsbx>& p', '  struct %s cell; unsigned int in_repr = cell.data; __CPROVER_assume(V_WHICH((uintptr_t)&cell) == in_slot && in_repr < V_SIZE[in_slot]);\n' % TV, '&cell'
+        leaves = ['dynamic_check', S_CTX_LEAF, free_leaf, U_NOCTX_LEAF]
+        pre_def = OBJVIEW
+        pick = lambda tu, fn: find_func(tu, 'free_in_sandbox', 'rlbox::rlbox_sandbox<rlbox::vsbx>', lambda f, rn: 'tainted_volatile' in f['type']['qualType'])
+        inv = '(__CPROVER_r_ok($0, sizeof(*$0)) && V_WHICH((uintptr_t)$0) == $this->base0.slot && $0->data < V_SIZE[$this->base0.slot])'
+        expect = 'MI($0->data)'
+    cl = sb_req('$this') + [
+        ('ptr_inv', '__CPROVER_requires(%s)' % inv),
+        ('created_frees_the_same_representation', '__CPROVER_ensures($this->sandbox_created == 2 ==> (g_free_calls == 1 && MI(g_freed) == %s))' % expect),
+        ('not_created_ignored', '__CPROVER_ensures($this->sandbox_created != 2 ==> g_free_calls == 0)'),
+        ('frame', '__CPROVER_assigns(g_freed, g_free_calls)')]
+    h = REGIONS + SB_DECL + '  int in_status; sb.sandbox_created = in_status; g_free_calls = 0; g_noabort = 0;\n' + decl + '  $ROOT(&sb, %s);\n' % arg
+    return Inst('c04_free_in_sandbox_%s' % kind, params, 's.free_in_sandbox(p);', cl, h, leaves=leaves, prop=PROP, root_name='free_in_sandbox', tier=tier,
+                pre=spec, pre_defines=pre_def, root_pick=pick, note='%s overload, with the tainted overload inline' % kind)
+
+
 def finder_inst(tier):
     """find_sandbox_from_example: walks the live list; returns the element whose region contains the example, or null"""
     VS = cs('rlbox::vsbx')
@@ -227,7 +263,7 @@ def ptr_array_inst(n, tier):
 
 
 def units(tier):
-    insts = entry_points(tier) + lemmas(tier) + cell_ops(tier) + [free_inst(tier), finder_inst(tier)] + [ptr_array_inst(n, tier) for n in ([4] if tier == 'quick' else [1, 4, 16, 64])]
+    insts = entry_points(tier) + lemmas(tier) + cell_ops(tier) + [free_inst(tier), free_overload_inst('opaque', tier), free_overload_inst('cell', tier), finder_inst(tier)] + [ptr_array_inst(n, tier) for n in ([4] if tier == 'quick' else [1, 4, 16, 64])]
     # the no-context paths find the sandbox through the live registry: its exactness under create/destroy in any order
     # (contracts of C14) is what makes "relative to that sandbox and never relative to another" hold across histories
     from . import C14
@@ -239,7 +275,7 @@ def units(tier):
     # relative to the sandbox the guest image lives in, null <-> 0
     from . import C08
     sinsts = []
-    for it in (C08.store_inst('VOuter', tier), C08.load_inst('VOuter', tier)):
+    for it in (C08.store_inst('VOuter', tier), C08.load_inst('VOuter', tier), C08.unverified_inst('VOuter', tier)):
         it.name = it.name.replace('c08_', 'c04_struct_')
         it.prop = PROP
         sinsts.append(it)
